@@ -5,7 +5,9 @@ sys.path.insert(0, os.path.join(os.path.dirname(os.path.abspath(__file__)), '..'
 import vf
 for f in sorted(glob.glob(os.path.join(vf.VERIF, 'contracts', 'c*.py'))):
     if os.path.basename(f) == 'common.py': continue
-    spec = importlib.util.spec_from_file_location(os.path.basename(f)[:-3], f); spec.loader.exec_module(importlib.util.module_from_spec(spec))
+    name = os.path.basename(f)[:-3]
+    if name in sys.modules: continue
+    spec = importlib.util.spec_from_file_location(name, f); mod = importlib.util.module_from_spec(spec); sys.modules[name] = mod; spec.loader.exec_module(mod)
 for h in vf.POST: h()
 work = '/tmp/w/try'; os.makedirs(work, exist_ok=True)
 R = vf.Runner(work, keep=True)
@@ -17,6 +19,7 @@ for cid in sys.argv[1:]:
     print(cid, r.status, r.reason[:3000], 'obl=%d' % len(r.obligations), 'canary', r.canary, '%.1fs' % r.time, 'nfuncs', r.nfuncs)
     for ob in r.failed:
         print('  FAILED', ob['class'], ob['name'], ob.get('label', ob['desc']), ob['line'])
+        if os.environ.get('BRIEF'): continue
         print('    inputs', ob.get('trace_inputs'))
         v, txt = R.replay_native(c, ob.get('trace_inputs'))
         print('    replay:', v, txt.strip()[:500])
